@@ -6,6 +6,8 @@ package c13
 // applies accepts it, then creating, initialising, serving six requests, inheriting and closing it must not panic.
 
 import (
+	"io"
+	"net/http/httptest"
 	"bytes"
 	"fmt"
 	"net/http"
@@ -362,6 +364,21 @@ func exercisePipeline(y string) *panicInfo {
 				ctx.SetOutputResponse(resp)
 			}
 			p.Handle(ctx)
+			// serving the request includes writing the response the pipeline produced, as the HTTP server's mux does
+			if r := ctx.GetOutputResponse(); r != nil {
+				if resp, ok := r.(*httpprot.Response); ok {
+					w := httptest.NewRecorder()
+					for k, vs := range resp.HTTPHeader() {
+						for _, v := range vs {
+							w.Header().Add(k, v)
+						}
+					}
+					w.WriteHeader(resp.StatusCode())
+					if pl := resp.GetPayload(); pl != nil {
+						io.Copy(w, pl)
+					}
+				}
+			}
 			ctx.Finish()
 		}); pi != nil {
 			return pi
